@@ -132,7 +132,11 @@ REAL_TEXTS = [('.m1', ['m1'], [], None), ('.m1, .m2', ['m1', 'm2'], [], None), (
               ('.m3, .m4', ['m3', 'm4'], [], None), ('*', [], [], 'explicit'), ('!', None, None, None), ('.m1(', 'bad', None, None), ('! .m4', [], ['m4'], 'implicit'),
               ('"', 'bad', None, None), ('.m1(="abc)', 'bad', None, None), ('[.m1', 'bad', None, None), ('a.b.c', 'bad', None, None), ('x@y@z', 'bad', None, None), ('.m1(x=y=z)', 'bad', None, None),
               # connection-qualified alternatives / exclusions (the connection is named A)
-              ('A: .m5', ['m5'], [], None), ('! A:.m4', [], ['m4'], 'implicit')]
+              ('A: .m5', ['m5'], [], None), ('! A:.m4', [], ['m4'], 'implicit'),
+              # alternatives that are DISPLAYED alike and mean different things: the number 7 / the text "7" as argument of .m6
+              ('.m6(7)', ['m6i'], [], None), ('.m6("7")', ['m6s'], [], None),
+              # other spellings of "everything": each is an explicit star
+              ('*.*', [], [], 'explicit'), ('.', [], [], 'explicit')]
 
 
 def fold(st, entry):
@@ -166,19 +170,30 @@ def real_sequences(ctx, case):
     from core import wl, matcher
     # case: n | (n, index of the -f text or None, index of the -b text or None): matchers given at start-up (`-f` / `-b`, built the way
     # frontends.tui.arguments.parse_args builds them) are the first alternatives of the accumulation
-    n, f0, b0 = case if isinstance(case, tuple) else (case, None, None)
+    n, f0, b0 = case[:3] if isinstance(case, tuple) else (case, None, None)
+    forced = case[3:5] if isinstance(case, tuple) and len(case) > 3 else None       # first command fixed by the case (splits the exploration for parallelism)
+    import logging
+    logging.disable(logging.CRITICAL)
     state = {'filter': ('const', True), 'breakpoint': ('const', False)}
     init = {}
     for which, k in (('filter', f0), ('breakpoint', b0)):
         if k is not None:
-            init[which] = matcher.parse(REAL_TEXTS[k][0]).simplify()
+            # through the real option parser (what main.py hands to the Controller)
+            from frontends.tui import arguments
+            parsed_args = arguments.parse_args(['main.py', '-l', 'some.log', '-f' if which == 'filter' else '-b', REAL_TEXTS[k][0]])
+            init[which] = parsed_args.filter_matcher if which == 'filter' else parsed_args.stop_matcher
             state[which] = fold(('const', None), REAL_TEXTS[k])
     w = ctl.make_world(ctx, 1, display=init.get('filter'), stop=init.get('breakpoint'), show_stub=True)
     try:
-        msgs = {nm: wl.message.MockMessage(0.0, wl.object.MockObject(w.conns[0], 0.0, 5, 0, 'wl_x'), True, nm, ()) for nm in ('m1', 'm2', 'm3', 'm4', 'm5')}
+        shapes = {'m1': ('m1', ()), 'm2': ('m2', ()), 'm3': ('m3', ()), 'm4': ('m4', ()), 'm5': ('m5', ()),
+                  'm6i': ('m6', (wl.Arg.Int(7),)), 'm6s': ('m6', (wl.Arg.String('7'),))}
+        msgs = {nm: wl.message.MockMessage(0.0, wl.object.MockObject(w.conns[0], 0.0, 5, 0, 'wl_x'), True, sh[0], sh[1]) for nm, sh in shapes.items()}
         for step_i in range(n):
-            which = ctx.choose(['filter', 'breakpoint'], 'which%d' % step_i)
-            text, A, X, star = ctx.choose(REAL_TEXTS, 'text%d' % step_i)
+            if step_i == 0 and forced:
+                which, (text, A, X, star) = forced[0], REAL_TEXTS[forced[1]]
+            else:
+                which = ctx.choose(['filter', 'breakpoint'], 'which%d' % step_i)
+                text, A, X, star = ctx.choose(REAL_TEXTS, 'text%d' % step_i)
             old_obj = w.ctl.display_matcher if which == 'filter' else w.ctl.stop_matcher
             nerr = len(w.err.items)
             w.ctl.process_command(which + ' ' + text)
@@ -215,9 +230,9 @@ def real_sequences(ctx, case):
                         ctx.check('step %d (%s %s): %s matcher on .%s follows the accumulation rule' % (step_i, which, text, wh, nm), (not must_reject) if real else (not must_select))
             # what the user sees: a later message is shown iff the accumulated filter selects it, and stops iff the accumulated breakpoint does
             # (independently of each other)
-            for nm in ('m1', 'm3', 'm5'):
+            for nm in ('m1', 'm3', 'm5', 'm6i', 'm6s'):
                 k0 = len(w.out.items)
-                live = ctl.add_message(w, 0, name=nm)
+                live = ctl.add_message(w, 0, name=shapes[nm][0], args=tuple(type(a)(a.value) for a in shapes[nm][1]))
                 shown = bool(ctl.msg_lines(w.out.items[k0:]))
                 stopped = any('Stopped at' in x for x in w.out.items[k0:])
                 for wh, real in (('filter', shown), ('breakpoint', stopped)):
@@ -234,11 +249,17 @@ def real_sequences(ctx, case):
         ctl.restore_show()
 
 
+def seq_cases(tier):
+    top = 3 if tier == 'quick' else 4
+    return [1, 2] + ([3] if top == 4 else []) + [(top, None, None, w, k) for w in ('filter', 'breakpoint') for k in range(len(REAL_TEXTS))] + startup_cases(tier)
+
+
 def startup_cases(tier):
     """sequences that begin with matchers given on the command line (-f / -b)"""
-    good = [k for k, e in enumerate(REAL_TEXTS) if e[1] not in ('bad', None) and e[3] != 'explicit']
+    good = [k for k, e in enumerate(REAL_TEXTS) if e[1] != 'bad']          # `!`, `*`, `*.*` and `.` included: constants given at start-up
     withneg = [k for k in good if REAL_TEXTS[k][2]]
-    return [(2 if tier == 'quick' else 3, f, b) for f in [None] + good for b in [None] + withneg[:1] if (f, b) != (None, None)]
+    bang = [k for k in good if REAL_TEXTS[k][1] is None]
+    return [(2 if tier == 'quick' else 3, f, b) for f in [None] + good for b in [None] + withneg[:1] + bang if (f, b) != (None, None) and (b not in bang or f in (None, good[0]))]
 
 
 def twin(ctx, case):
@@ -263,5 +284,5 @@ def obligations(tier):
                stubs=['matcher.parse replaced (trees shaped like the real parser\'s; `*`, `!` from the real parser)', 'abstract leaves'],
                outside='longer sequences (the rule is a fold, so length 3 exercises const->acc, acc->acc, acc->const, const->acc transitions); leaves with constant always()'),
             Ob('real-parser-sequences', 'symx', 'interleaved filter/breakpoint commands with real matcher texts through the real parser, both stored matchers evaluated on real messages after every step', FUNCS + ['core.matcher:parse'],
-               'all sequences of <= %d commands from 2 commands x %d texts, also after -f / -b matchers given at start-up; 5 message names' % (3 if tier == 'quick' else 4, len(REAL_TEXTS)), real_sequences, cases=([1, 2, 3] if tier == 'quick' else [1, 2, 3, 4]) + startup_cases(tier)),
+               'all sequences of <= %d commands from 2 commands x %d texts, also after -f / -b matchers given at start-up; 5 message names' % (3 if tier == 'quick' else 4, len(REAL_TEXTS)), real_sequences, cases=seq_cases(tier)),
             Ob('accumulate-reachable', 'symx', 'reachability twin', FUNCS, bounds, twin, cases=[('filter', ('a!x', 'a,b'))], expect_cex=True)]
